@@ -131,6 +131,8 @@ pub fn form_name(f: KeyForm) -> &'static str {
         KeyForm::SingleOrigin => "single_origin",
         KeyForm::Uncompressed => "uncompressed",
         KeyForm::XOnly => "xonly",
+        KeyForm::TwinOtherParity => "twin_other_parity",
+        KeyForm::TwinUncompressed => "twin_uncompressed",
     }
 }
 pub fn form_from(s: &str) -> Option<KeyForm> {
@@ -143,6 +145,8 @@ pub fn form_from(s: &str) -> Option<KeyForm> {
         KeyForm::SingleOrigin,
         KeyForm::Uncompressed,
         KeyForm::XOnly,
+        KeyForm::TwinOtherParity,
+        KeyForm::TwinUncompressed,
     ]
     .into_iter()
     .find(|f| form_name(*f) == s)
